@@ -488,6 +488,26 @@ fn try_adjust_price_with_max_deviation_factor(
     adjusted_price
 }
 
+/// Public entries for the solver-based checks in `/verif` (`--cfg gmsol_verif`); thin wrappers only.
+#[cfg(gmsol_verif)]
+pub mod verif_hooks {
+    use super::*;
+
+    /// See `try_adjust_price_with_max_deviation_factor`.
+    pub fn try_adjust_price_with_max_deviation_factor(
+        factor: &u128,
+        price: &gmsol_utils::Price,
+        ref_price: Option<&Decimal>,
+    ) -> Option<gmsol_utils::Price> {
+        super::try_adjust_price_with_max_deviation_factor(factor, price, ref_price)
+    }
+
+    /// See `Oracle::update_oracle_ts_and_slot`.
+    pub fn update_oracle_ts_and_slot(oracle: &mut Oracle, validator: PriceValidator) -> Result<()> {
+        oracle.update_oracle_ts_and_slot(validator)
+    }
+}
+
 pub(crate) struct MaxAgeValidator {
     max_age: u32,
 }
